@@ -165,6 +165,8 @@ type GroupCase struct {
 	AckedN    int      `json:"ackedN"`
 	Missing   int      `json:"missing"`     // acknowledged points missing on the rejoined member after catch-up
 	VictimApplied uint64 `json:"victimApplied"`
+	Target    int      `json:"target"`      // lagmaster: the partition that answers reads after the master's store died
+	GroupCommit uint64 `json:"groupCommit"` // lagmaster: applied index of the caught-up live member at that moment
 	Note      []string `json:"note"`
 	Oracle    []string `json:"oracle"`
 }
@@ -261,6 +263,10 @@ func waitFor(d time.Duration, f func() bool) bool {
 }
 
 func runGroupCase(work string, c *GroupCase) {
+	if c.Forced == "lagmaster" {
+		runLagMaster(work, c)
+		return
+	}
 	defer func() {
 		if r := recover(); r != nil {
 			c.Oracle = append(c.Oracle, fmt.Sprintf("harness panic: %v", r))
